@@ -36,7 +36,7 @@ import gen  # noqa: E402
 # ------------------------------------------------------------------------------------------------
 
 ANNOT_RE = re.compile(
-    r"((?:[ \t]*//[ \t]*@[^\n]*\n)+)((?:[ \t]*#\[[^\n]*\n)*)[ \t]*(?:pub(?:\([a-z]+\))? )?fn (\w+)"
+    r"((?:[ \t]*//[ \t]*@[^\n]*\n)+)((?:[ \t]*#\[[^\n]*\n)*)[ \t]*(?:(?:pub(?:\([a-z]+\))? )?fn (\w+)|\w+!\(\s*(\w+)\s*,)"
 )
 
 
@@ -98,7 +98,7 @@ def load_registry():
                     meta = parse_meta(m.group(1))
                     if "props" not in meta:
                         continue
-                    hs.append(Harness(crate, os.path.relpath(p, os.path.join(kroot, crate)), m.group(3), meta))
+                    hs.append(Harness(crate, os.path.relpath(p, os.path.join(kroot, crate)), m.group(3) or m.group(4), meta))
     return hs
 
 
@@ -146,7 +146,7 @@ def run_cmd(cmd, cwd, timeout, mem_gb, log_path, env=None):
 
 
 CHECK_RE = re.compile(
-    r"^Check (\d+): (\S+)\n\t - Status: (\w+)\n\t - Description: \"(.*)\"\n(?:\t - Location: (.*)\n)?",
+    r"^Check (\d+): (.+)\n\t - Status: (\w+)\n\t - Description: \"(.*)\"\n(?:\t - Location: (.*)\n)?",
     re.M,
 )
 
